@@ -26,6 +26,9 @@ enum Fate {
     HandleDropped,
     Running,
     RunningPendingTask,
+    /// running, its thread blocked inside a task until `run` has returned, with this many short
+    /// commands queued behind that task - so the system's Stop is found at the end of a backlog
+    Busy(usize),
 }
 const FATES: [Fate; 4] = [Fate::EarlyStopJoin, Fate::HandleDropped, Fate::Running, Fate::RunningPendingTask];
 
@@ -83,7 +86,7 @@ fn case_from(v: &Value) -> Case {
         Second::FromOtherThreadAfter(num(s) as i32)
     };
     Case {
-        fates: v["fates"].as_array().unwrap().iter().map(|f| match f.as_str().unwrap() { "EarlyStopJoin" => Fate::EarlyStopJoin, "HandleDropped" => Fate::HandleDropped, "Running" => Fate::Running, _ => Fate::RunningPendingTask }).collect(),
+        fates: v["fates"].as_array().unwrap().iter().map(|f| match f.as_str().unwrap() { "EarlyStopJoin" => Fate::EarlyStopJoin, "HandleDropped" => Fate::HandleDropped, "Running" => Fate::Running, b if b.starts_with("Busy") => Fate::Busy(num(b) as usize), _ => Fate::RunningPendingTask }).collect(),
         origin,
         code: v["code"].as_i64().unwrap() as i32,
         second,
@@ -119,6 +122,8 @@ fn run_case(c: &Case) -> Outcome {
     let sys = System::current();
     let mut arbs: Vec<Option<Arbiter>> = vec![];
     let mut flags: Vec<Arc<AtomicBool>> = vec![];
+    let mut gates = vec![];
+    let backlog_ran = Arc::new(std::sync::atomic::AtomicUsize::new(0));
     for f in &c.fates {
         let arb = Arbiter::new();
         let flag = Arc::new(AtomicBool::new(false));
@@ -145,6 +150,23 @@ fn run_case(c: &Case) -> Outcome {
             Fate::Running => arbs.push(Some(arb)),
             Fate::RunningPendingTask => {
                 arb.spawn(std::future::pending());
+                arbs.push(Some(arb));
+            }
+            Fate::Busy(k) => {
+                let (reached_tx, reached_rx) = channel::<()>();
+                let (gate_tx, gate_rx) = channel::<()>();
+                arb.spawn_fn(move || {
+                    let _ = reached_tx.send(());
+                    let _ = gate_rx.recv_timeout(crate::WATCHDOG * 2);
+                });
+                let _ = reached_rx.recv_timeout(Duration::from_secs(5));
+                for _ in 0..*k {
+                    let n = backlog_ran.clone();
+                    arb.spawn_fn(move || {
+                        n.fetch_add(1, Ordering::SeqCst);
+                    });
+                }
+                gates.push(gate_tx);
                 arbs.push(Some(arb));
             }
         }
@@ -202,6 +224,8 @@ fn run_case(c: &Case) -> Outcome {
     } else {
         runner.run_with_code().map_err(|e| e.to_string())
     };
+    // the busy arbiters find their backlog (queued commands, then the system's Stop) only now
+    drop(gates);
     // every arbiter created before the stop must end
     let mut ended = vec![];
     for (i, a) in arbs.into_iter().enumerate() {
@@ -230,6 +254,9 @@ fn run_case(c: &Case) -> Outcome {
 fn check(c: &Case, o: &Outcome) -> Option<(String, String)> {
     match &o.run_result {
         Ok(code) if *code == c.code => {}
+        Ok(0) if c.use_run && c.code != 0 && (matches!(c.second, Second::None) || !matches!(c.second, Second::RightBehind(0))) => {
+            return Some(("C09:run-ok-for-nonzero-code".into(), format!("run() returned Ok(()) although the system was stopped with the non-zero code {} (second stop: {:?})", c.code, c.second)));
+        }
         Ok(code) => {
             let sig = if matches!(c.second, Second::None) { "C09:wrong-exit-code" } else { "C09:first-stop-does-not-win" };
             return Some((sig.into(), format!("run returned exit code {code}, the first stop_with_code was {} (second stop: {:?})", c.code, c.second)));
@@ -259,7 +286,8 @@ fn enumerate(max_n: usize) -> Vec<Case> {
                 }
             }
             for origin in origins {
-                for code in [0, 7] {
+                let codes: &[i32] = if n <= 1 { &[0, 7, -1, i32::MIN, i32::MAX] } else { &[0, 7] };
+                for &code in codes {
                     for second in [Second::None, Second::RightBehind(9), Second::RightBehind(0), Second::FromOtherThreadAfter(9)] {
                         if second == Second::RightBehind(0) && code == 0 {
                             continue;
@@ -272,6 +300,30 @@ fn enumerate(max_n: usize) -> Vec<Case> {
                         }
                     }
                 }
+            }
+        }
+    }
+    out
+}
+
+/// Arbiters that are busy while the system stops: the Stop of the system reaches them behind a
+/// backlog of `k` queued commands, for every k up to `max_backlog`.
+fn enumerate_busy(max_backlog: usize, step_above_40: usize) -> Vec<Case> {
+    let mut out = vec![];
+    let mut ks: Vec<usize> = (0..=max_backlog.min(40)).collect();
+    let mut k = 40 + step_above_40;
+    while k <= max_backlog {
+        ks.push(k);
+        k += step_above_40;
+    }
+    for k in ks {
+        for fates in [vec![Fate::Busy(k)], vec![Fate::Busy(k), Fate::Running], vec![Fate::Running, Fate::Busy(k)], vec![Fate::Busy(k), Fate::Busy(1)]] {
+            let mut origins = vec![Origin::BeforeRun, Origin::TaskOnSystemThread, Origin::ForeignThread];
+            if let Some(i) = fates.iter().position(|f| *f == Fate::Running) {
+                origins.push(Origin::Arbiter(i));
+            }
+            for origin in origins {
+                out.push(Case { fates: fates.clone(), origin, code: 7, second: Second::None, use_run: false });
             }
         }
     }
@@ -308,6 +360,8 @@ pub fn run(args: &Args) -> i32 {
         // plus the n=3 cases that matter most: one arbiter dies registered, the others run
         cases.extend(enumerate(3).into_iter().filter(|c| c.fates.len() == 3 && matches!(c.origin, Origin::ArbiterThenDies(_)) && c.fates.iter().all(|f| *f == Fate::Running) && !c.use_run && c.second == Second::None));
     }
+    let max_backlog = args.opt_usize("backlog", args.tier.pick(80, 400));
+    cases.extend(enumerate_busy(max_backlog, 20));
     let mut results = vec![];
     let mut executed = 0usize;
     for chunk in cases.chunks(args.threads.min(12) * 16) {
@@ -353,6 +407,9 @@ pub fn run(args: &Args) -> i32 {
     rep.set("configurations_with_a_dead_but_registered_arbiter", dead_registered);
     rep.set("configurations_with_two_stops", two_stops);
     rep.set("max_arbiters", max_n);
+    rep.set("configurations_with_a_busy_arbiter_and_a_command_backlog", cases.iter().filter(|c| c.fates.iter().any(|f| matches!(f, Fate::Busy(_)))).count() as u64);
+    rep.set("max_command_backlog", max_backlog);
+    rep.set("configurations_with_a_negative_exit_code", cases.iter().filter(|c| c.code < 0).count() as u64);
     let early = rep.get_u64("stopped_early_after_mass_failure") != 0 || rep.get_bool("stopped_early_after_mass_failure");
     rep.set("exhaustive", !early);
     rep.sample(json!({"fates": ["Running", "RunningPendingTask", "EarlyStopJoin"], "origin": "ArbiterThenDies(0)", "code": 7, "second": "RightBehind(9)", "expect": "run_with_code returns 7; arbiter 1 ends although arbiter 0 is dead but still registered when Exit is handled"}));
